@@ -73,15 +73,12 @@ theorem interp_pats (e : Env) : ∀ (ops : List Op) (ps qs : List (List Nat)) (s
 /-! ### basic facts about `skipExact` and `readSpec` -/
 
 theorem lim_le_len (e : Env) : e.lim ≤ e.len := by
-  unfold Env.lim; split
-  · exact Nat.le_refl _
-  · split <;> omega
+  unfold Env.lim; simp only
+  cases e.fault <;> cases e.eofOnce <;> simp only <;> (repeat' split) <;> omega
 
 theorem lim_le_fault {e : Env} {f : Nat} (h : e.fault = some f) : e.lim ≤ f := by
-  unfold Env.lim; rw [h]; simp only; split <;> omega
-
-theorem lim_nofault {e : Env} (h : e.fault = none) : e.lim = e.len := by
-  unfold Env.lim; rw [h]
+  unfold Env.lim; rw [h]; simp only
+  cases e.eofOnce <;> simp only <;> (repeat' split) <;> omega
 
 /-- `io_skip_exact` for a positive count that fits `i64` -/
 theorem skipExact_pos {e : Env} {pos n : Nat} (h0 : n ≠ 0) (hn : n ≤ I64MAX) :
